@@ -77,9 +77,9 @@ func (g *sgen) ifChain(depth int) {
 func (g *sgen) stmt(depth int) {
 	g.max--
 	in := g.ind(depth)
-	k := g.rng.Intn(20)
+	k := g.rng.Intn(24)
 	if depth >= 8 {
-		k = 19
+		k = 23
 	}
 	switch {
 	case k < 8:
@@ -111,6 +111,12 @@ func (g *sgen) stmt(depth int) {
 		g.sb.WriteString(in + "_ = func(q int) int {\n")
 		g.block(depth+1, 1+g.rng.Intn(2))
 		g.sb.WriteString(in + "\treturn " + g.probe() + "\n" + in + "}\n")
+	case k == 15:
+		g.sb.WriteString(in + fmt.Sprintf("_ = (x + %d) * (cn + x)\n", g.rng.Intn(9)))
+	case k == 16:
+		g.sb.WriteString(in + "if len(s) > x && s[x] == int(x) {\n" + in + "\t" + g.probe() + "\n" + in + "\t" + g.probe() + "\n" + in + "}\n")
+	case k == 17:
+		g.sb.WriteString(in + "func() {\n" + in + "\tif b {\n" + in + "\t\treturn\n" + in + "\t}\n" + in + "\t" + g.probe() + "\n" + in + "}()\n")
 	case k == 14:
 		g.sb.WriteString(in + "for range s {\n")
 		g.block(depth+1, 1)
